@@ -105,6 +105,12 @@ func runReplace(c trieg.Case, r *pb.Rec) error {
 	// totality first (any text)
 	masked := tr.ReplaceWithMask(text, c.Mask)
 	replaced := tr.Replace(text, c.Repl)
+	mk, rk := strings.Clone(masked), strings.Clone(replaced)
+	tr.Replace(text+text, c.Repl+"x")
+	tr.ReplaceWithMask("x"+text, c.Mask)
+	if masked != mk || replaced != rk {
+		return fmt.Errorf("a result of Replace/ReplaceWithMask(%q) changed after a later call", text)
+	}
 	// Replace: exactly the covered bytes are removed, 1..occs copies per maximal region, none elsewhere
 	if !parseReplace(replaced, text, c.Repl, rs) {
 		return fmt.Errorf("Replace(%q, %q) with patterns %q = %q: not U0 R^k1 U1 ... with 1<=kj<=occurrences for the covered regions %v", text, c.Repl, c.Patterns, replaced, rs)
